@@ -899,7 +899,7 @@ func (u *Unit) checkPost(st *State, pos token.Pos) {
 		}
 	}
 	if u.ct != nil {
-		env := &SpecEnv{u: u, st: st, old: u.entry, names: names, cs: u.cs, pkg: u.pkg.Types, own: true, scopePos: u.bodyPos}
+		env := &SpecEnv{u: u, st: st, old: u.entry, names: names, cs: u.cs, pkg: u.pkg.Types, own: true, scopePos: u.endPos}
 		for i, en := range u.ct.Ensures {
 			g := env.evalBool(en.Expr)
 			u.emit(st, "post", fmt.Sprintf("post#%d", i), "ensures "+en.Text, pos, g)
@@ -1347,6 +1347,8 @@ func (u *Unit) execRange(st *State, s *ast.RangeStmt, label string) *State {
 			}, []*types.Var{kv})
 	case *types.Map:
 		return u.execRangeMap(st, s, lc, n, label, keyVar, valVar, ut)
+	case *types.Chan:
+		return u.execRangeChan(st, s, lc, n, label, keyVar, ut)
 	}
 	return u.execRangeAbstract(st, s, lc, n, label, keyVar, valVar)
 }
@@ -1402,6 +1404,54 @@ func (u *Unit) execRangeMap(st *State, s *ast.RangeStmt, lc *LoopContract, n int
 			return u.execBlock(st, s.Body.List)
 		},
 		func(st *State) *State { return st }, []*types.Var{vis})
+}
+
+// chanGhost declares the ghost sequence of values received from a channel until it is closed:
+// chan.len(ch) >= 0 values chan.at(ch, 0), chan.at(ch, 1), ... (for an arbitrary finite sequence: all completion orders at once).
+func (u *Unit) chanGhost(elem types.Type) (string, string) {
+	es := u.c.sortOf(elem)
+	at := "chan.at_" + sanitize(es)
+	u.c.declareFun("chan.len", "(Int) "+u.c.idxSort())
+	u.c.declareFun(at, "(Int "+u.c.idxSort()+") "+es)
+	return "chan.len", at
+}
+
+// execRangeChan: `for v := range ch` receives chan.at(ch,0..len-1) in order and ends when the channel is closed and drained.
+func (u *Unit) execRangeChan(st *State, s *ast.RangeStmt, lc *LoopContract, n int, label string, valVar *types.Var, ct *types.Chan) *State {
+	c := u.c
+	ch := u.eval(st, s.X)
+	ln, at := u.chanGhost(ct.Elem())
+	st.assume(c.idxLe(c.idxConst(0), "("+ln+" "+ch.S+")"))
+	kv := types.NewVar(s.Pos(), u.pkg.Types, fmt.Sprintf("range%d", n), types.Typ[types.Int])
+	u.rangeVars[n] = kv
+	u.declareVar(st, kv, u.zeroOf(kv.Type()))
+	u.c.note("range over channel %s: modelled as an arbitrary finite sequence of received values (trusted: the channel is eventually closed)", u.exprText(s.X))
+	idxOf := func(st *State) string { return u.toIdx(u.readVar(st, kv, s.Pos())) }
+	implicit := func(st *State) string {
+		i := idxOf(st)
+		return and(c.idxLe(c.idxConst(0), i), c.idxLe(i, "("+ln+" "+ch.S+")"))
+	}
+	return u.runLoopImplicit(st, lc, n, label, s.Pos(), s.Body.Pos(), s.Body, implicit,
+		func(st *State) (string, bool) { return c.idxLt(idxOf(st), "("+ln+" "+ch.S+")"), true },
+		func(st *State) *State {
+			if valVar != nil {
+				ev := Term{S: fmt.Sprintf("(%s %s %s)", at, ch.S, idxOf(st)), T: ct.Elem()}
+				u.assumeRange(st, ev)
+				if s.Tok == token.DEFINE {
+					u.declareVar(st, valVar, ev)
+				} else {
+					u.writeVar(st, valVar, ev)
+				}
+			}
+			return u.execBlock(st, s.Body.List)
+		},
+		func(st *State) *State {
+			cur := u.readVar(st, kv, s.Pos())
+			nx := u.binop(st, token.ADD, cur, Term{S: "1", K: bigOne}, kv.Type(), s, false)
+			nx.T = kv.Type()
+			u.writeVar(st, kv, nx)
+			return st
+		}, []*types.Var{kv})
 }
 
 func (u *Unit) execRangeAbstract(st *State, s *ast.RangeStmt, lc *LoopContract, n int, label string, keyVar, valVar *types.Var) *State {
